@@ -438,6 +438,22 @@ class Lib:
             c = self.map_keys(it, c)
         if not isinstance(c, VSeq):
             raise Unsupported('comprehension over %r' % (src,), e)
+        g = e.generators[0]
+        if kind == 'list' and isinstance(e.elt, ast.Name) and isinstance(g.target, ast.Name) and e.elt.id == g.target.id and g.ifs:
+            # a filter [x for x in seq if p(x)]: a new list whose element set is {x in seq | p(x)} (A-seqsets: filtering
+            # keeps pairwise distinctness and does not lengthen the list)
+            ge = VGenExpr(e, fr, c, kind)
+            x = z3.Const('bv!f', c.ety.sort())
+            conds, _val = ge.predicate(it, c.ety.wrap(x))
+            r = it.ctx.fresh_const('filtered', c.t.sort())
+            seqset_empty_facts(it.ctx, c.t.sort())
+            it.ctx.assume(z3.ForAll([x], z3.Select(seq_elems(r), x) == z3.And(z3.Select(seq_elems(c.t), x), *conds),
+                                    patterns=[z3.Select(seq_elems(r), x)]), heavy=True)
+            it.ctx.assume(z3.Implies(seq_distinct(c.t), seq_distinct(r)), heavy=True)
+            it.ctx.assume(z3.Length(r) <= z3.Length(c.t))
+            it.engine.assumed.add('A-seqsets: element set / distinctness of sequences as uninterpreted functions with lemma '
+                                  'instances at append, remove, membership, filtering and iteration')
+            return VCell(VSeq(r, c.ety, 'list'), 'list')
         return VGenExpr(e, fr, c, kind)
 
     # strings ------------------------------------------------------------
